@@ -7,7 +7,7 @@ HERE = os.path.dirname(os.path.dirname(os.path.abspath(__file__)))
 # id -> (technique, level text, level note, design_ref)
 P = {
  "C01": ("property-based testing (proptest over choice sequences) against an independent reference model of the spec digest rules; route-independence differential; stateful op histories",
-         "Generated envelope trees built along three routes and stepped through generated histories; every element's digest is recomputed bottom-up by the harness (own SHA-256 + own dCBOR) and must equal the library's at every position, in the structure and in the emitted bytes. Exploration: held on everything generated, no proof.",
+         "Generated envelope trees built along three routes and stepped through generated histories; every element's digest is recomputed bottom-up by the harness (own SHA-256 + own dCBOR) and must equal the library's at every position, in the structure and in the emitted bytes; histories include refused operations (non-assertions offered as assertions, forged encrypted subjects) and 8-20 extra nesting levels. Exploration: held on everything generated, no proof.",
          "sha2 crate; bc-components used only to make/open ciphertext and compressed blobs; depth <= 8", "§3 C01"),
  "C02": ("property-based testing: metamorphic relation (obscure => same digests at every surviving position) + reference model",
          "Generated envelopes x generated target sets (present, absent, multi-position) x both modes x three actions plus the whole-envelope forms and chains; the result is walked position-wise against the original and against the model; in-library assert! panics count as violations.",
@@ -37,7 +37,7 @@ P = {
          "Each listed key opens to exactly the original subject; unlisted keys fail; wrapped and seal forms identical to the original; add_recipient keeps earlier recipients; wrong sender/recipient fail.",
          "KEM/AEAD secure", "§3 C10"),
  "C11": ("property-based testing with exhaustive subset enumeration per generated SSKR policy against a quorum-arithmetic model",
-         "For every generated policy, every non-empty subset of the shares is joined; Ok iff the model's quorum holds and then identical to the original; mixed splits give Err or one of the originals.",
+         "For every generated policy, every non-empty subset of the shares is joined; Ok iff the model's quorum holds and then identical to the original; mixed splits are predicted exactly (Ok iff a split whose key opens the first envelope has a quorum); groups of up to 16 members with subsets sampled around the quorum.",
          "sskr/bc-shamir correct for the split itself", "§3 C11"),
  "C12": ("property-based testing against a set-membership model, with mutation of proofs for soundness and a structural minimality predicate",
          "proof is Some iff targets ⊆ model digests; produced proofs confirm from the bare root; confirm(T,P') == model evaluation for arbitrary/mutated P'; everything off the root-to-target paths and every innermost target is a 34-byte elided digest.",
@@ -64,7 +64,7 @@ P = {
          "attachments(), filters, single-result errors, payload/vendor/conformsTo, Attachments container and type checks equal the model's answers; malformed attachments are reported invalid.",
          "", "§3 C19"),
  "C20": ("generated multi-thread programs run in fresh child processes with solo-reference oracle (weak: schedules sampled, not enumerated)",
-         "Every thread joins, no panic/poison, each formatting result equals the text the call returns alone; multithreaded build agrees on every thread. Schedules are sampled by jitter and repetition only.",
+         "Every thread joins within the watchdog (deadlock = all threads asleep with no CPU in two /proc samples), no panic / poisoned lock (programs may contain a leaf on which a summarizer panics), each result equals the text the call returns alone in one of the registry states reachable for that thread (5 reference child processes), a thread's own registrations are never lost; multithreaded build agrees on every thread. Schedules are sampled by jitter and fresh-process repetition only.",
          "the harness does not own the scheduler", "§3 C20"),
 }
 
@@ -106,7 +106,7 @@ m = {
     }],
     "checks": checks,
     "not_applicable": na,
-    "notes": "See DESIGN.md. Exit 2 = inconclusive (harness build/self-check failure). known_findings.json lists open findings and fixed: records.",
+    "notes": "See DESIGN.md (section 9 = build record). Exit 2 = inconclusive (harness build / self-check failure, wall-clock watchdog). known_findings.json lists open findings (dependency defects K1-K6, printed as KNOWN-FINDING lines) and fixed: records (14 fix: commits in /repo). seeded/ holds 80 independently written breaking changes with demonstrations; sensitivity/TABLE.md says which check catches which change.",
 }
 json.dump(m, open(os.path.join(HERE, "MANIFEST.json"), "w"), indent=1)
 print("claimed:", [c["property_id"] for c in checks])
